@@ -79,4 +79,59 @@ pub fn run(sink: &mut Sink, thorough: bool, seed: u64) {
         d.push(b']');
         emit_reprint(sink, &cfg, &d, "doc");
     }
+    // documents with objects and strings (c20_text_roundtrip): `canon` = distinct keys, ascending unless preserve_order, every string in
+    // the serializer's spelling => the output is the input minus insignificant whitespace; the other classes break one proviso each
+    for i in 0..(if thorough { 6000 } else { 900 }) {
+        let class = ["canon", "canon", "canon", "unsorted", "dupkey", "respelled"][i % 6];
+        let mut d: Vec<u8> = vec![];
+        ws(&mut r, &mut d);
+        gen_doc(&mut r, &lits, class, 3, &mut d);
+        ws(&mut r, &mut d);
+        emit_reprint(sink, &cfg, &d, &format!("text:{}", class));
+    }
+}
+
+/// (spelling between the quotes, decoded bytes) — the serializer's own spellings, one with blanks inside the literal
+const STRS: [(&str, &[u8]); 12] = [("", b""), ("a", b"a"), ("b\\n", b"b\n"), ("\\u001f", b"\x1f"), ("\u{e9}", "\u{e9}".as_bytes()), ("k  k", b"k  k"),
+    ("\\\"", b"\""), ("\\\\", b"\\"), ("z\\t", b"z\t"), ("A", b"A"), ("\u{1f600}", "\u{1f600}".as_bytes()), (" ", b" ")];
+/// other RFC 8259 spellings of a string (not what the serializer writes)
+const RESPELLED: [&str; 5] = ["\\u0041", "\\/", "\\u00e9", "\\ud83d\\ude00", "\\u000A"];
+
+fn ws(r: &mut Rng, d: &mut Vec<u8>) { for _ in 0..r.below(3) { if r.chance(1, 2) { d.push(*r.pick(&[b' ', b'\n', b'\t', b'\r'])); } } }
+
+fn gen_str(r: &mut Rng, class: &str, d: &mut Vec<u8>) {
+    d.push(b'"');
+    if class == "respelled" && r.chance(1, 2) { d.extend_from_slice(r.pick(&RESPELLED).as_bytes()); } else { d.extend_from_slice(r.pick(&STRS).0.as_bytes()); }
+    d.push(b'"');
+}
+
+fn gen_doc(r: &mut Rng, lits: &[String], class: &str, depth: usize, d: &mut Vec<u8>) {
+    let k = if depth == 0 { r.below(4) } else { r.below(8) };
+    match k {
+        0 | 1 => d.extend_from_slice(r.pick(lits).as_bytes()),
+        2 => gen_str(r, class, d),
+        3 => d.extend_from_slice(*r.pick(&[&b"null"[..], &b"true"[..], &b"false"[..]])),
+        4 | 5 => {
+            d.push(b'[');
+            let n = r.below(4);
+            for i in 0..n { if i > 0 { d.push(b','); } ws(r, d); gen_doc(r, lits, class, depth - 1, d); ws(r, d); }
+            if n == 0 { ws(r, d); }
+            d.push(b']');
+        }
+        _ => {
+            // keys: a random subset of STRS, ascending by decoded bytes (the order of BTreeMap<String, _>) unless the class says otherwise
+            let mut ks: Vec<usize> = (0..STRS.len()).filter(|_| r.chance(1, 3)).collect();
+            ks.sort_by(|a, b| STRS[*a].1.cmp(STRS[*b].1));
+            if class == "unsorted" || cfg!(feature = "po") { for i in (1..ks.len()).rev() { let j = r.below(i + 1); ks.swap(i, j); } }
+            if class == "dupkey" && !ks.is_empty() { let x = *r.pick(&ks); ks.push(x); }
+            d.push(b'{');
+            for (i, k) in ks.iter().enumerate() {
+                if i > 0 { d.push(b','); }
+                ws(r, d); d.push(b'"'); d.extend_from_slice(STRS[*k].0.as_bytes()); d.push(b'"'); ws(r, d); d.push(b':'); ws(r, d);
+                gen_doc(r, lits, class, depth - 1, d); ws(r, d);
+            }
+            if ks.is_empty() { ws(r, d); }
+            d.push(b'}');
+        }
+    }
 }
